@@ -272,6 +272,7 @@ func TestVerifC16b(t *testing.T) {
 type c17bCase struct {
 	Values [][]byte `json:"values"`
 	Burst  bool     `json:"burst,omitempty"` // publish all values at once, so that the partition takes them as one batch
+	Pause  int      `json:"pause,omitempty"` // k > 0: the stream is paused before value k%n is published (the publish resumes it)
 }
 
 func genC17b(t *rapid.T) c17bCase {
@@ -295,6 +296,9 @@ func genC17b(t *rapid.T) c17bCase {
 			v = append([]byte(fmt.Sprintf("#%d#", i)), v...)
 		}
 		c.Values = append(c.Values, v)
+	}
+	if rapid.IntRange(0, 2).Draw(t, "pause?") == 0 {
+		c.Pause = rapid.IntRange(1, 24).Draw(t, "pause")
 	}
 	return c
 }
@@ -321,10 +325,34 @@ func runC17b(c c17bCase, o *vfutil.Obs) *vfutil.Failure {
 	if err := waitLeader(l.s, name); err != nil {
 		return vfutil.Failf("harness/leader", "%v", err)
 	}
+	pauseAt := -1
+	if c.Pause > 0 && len(c.Values) >= 2 {
+		pauseAt = c.Pause % len(c.Values)
+		if pauseAt == 0 || c.Burst {
+			pauseAt = 1
+		}
+	}
+	pause := func() *vfutil.Failure {
+		ctx, cancel := ctxFor("", 20*time.Second)
+		_, err := a.PauseStream(ctx, &client.PauseStreamRequest{Name: name})
+		cancel()
+		if err != nil {
+			return vfutil.Failf("harness/pause", "%v", err)
+		}
+		o.Label("paused-and-resumed-by-publish")
+		return nil
+	}
 	if c.Burst {
 		var wg sync.WaitGroup
 		errs := make([]error, len(c.Values))
 		for i, v := range c.Values {
+			if i == 1 && pauseAt == 1 {
+				// the first value alone, then the pause, then the rest at once
+				wg.Wait()
+				if f := pause(); f != nil {
+					return f
+				}
+			}
 			wg.Add(1)
 			go func(i int, v []byte) {
 				defer wg.Done()
@@ -342,6 +370,11 @@ func runC17b(c c17bCase, o *vfutil.Obs) *vfutil.Failure {
 		o.Label("burst")
 	} else {
 		for i, v := range c.Values {
+			if i == pauseAt {
+				if f := pause(); f != nil {
+					return f
+				}
+			}
 			ctx, cancel := ctxFor("", 20*time.Second)
 			_, err := a.Publish(ctx, &client.PublishRequest{Stream: name, Value: v, AckPolicy: client.AckPolicy_ALL})
 			cancel()
